@@ -41,6 +41,12 @@ theorem crossedSum_add (mc : Machine M) (a b : Nat) (m : M) :
     simp only [crossedSum, iter]
     omega
 
+theorem crossedSumTR_eq (mc : Machine M) (j : Nat) (m : M) (acc : Nat) :
+    crossedSumTR mc j m acc = acc + crossedSum mc j m := by
+  induction j generalizing m acc with
+  | zero => rfl
+  | succ j ih => rw [crossedSumTR, ih, crossedSum]; omega
+
 theorem runToFrame_zero (mc : Machine M) (fuel : Nat) (m : M) : runToFrame mc fuel 0 m = some m := by
   cases fuel <;> rfl
 
